@@ -162,6 +162,12 @@ func (f *FuncCtx) specIdent(name string, env *Env) (Val, bool) {
 		name = "$" + name[2:]
 	}
 	for i := len(sc.bound) - 1; i >= 0; i-- {
+		if sc.inOld == 0 {
+			// reference-like parameter listed in the callee's assigns: its value after the call
+			if v, ok := sc.bound[i]["$post:"+name]; ok {
+				return v, true
+			}
+		}
 		if v, ok := sc.bound[i][name]; ok {
 			return v, true
 		}
@@ -393,7 +399,10 @@ func (f *FuncCtx) specCall(e *ast.CallExpr, env *Env) ([]Val, bool) {
 		}
 		oe := sc.old.clone()
 		// keep bound variables; evaluate in the old state
-		return []Val{f.specExpr(e.Args[0], oe)}, true
+		sc.inOld++
+		r := f.specExpr(e.Args[0], oe)
+		sc.inOld--
+		return []Val{r}, true
 	case "forall", "exists":
 		if argc != 4 {
 			f.fail("%s(i, lo, hi, body)", id.Name)
@@ -637,7 +646,7 @@ func (f *FuncCtx) callSpec(sf *SpecFunc, pc *PkgContracts, e *ast.CallExpr, env 
 		}
 	}
 	rec := sf.Body != "" && strings.Contains(sf.Body, sf.Name+"(")
-	if sf.Body != "" && !rec {
+	if sf.Body != "" && !rec && !sf.Opaque {
 		// non-recursive spec functions are macros: expanded at the use site with the parameters bound to the
 		// arguments and evaluated in the current state (so they may read the heap, old(...) etc.)
 		if len(e.Args) != len(sf.Params) {
@@ -692,10 +701,29 @@ func (f *FuncCtx) callSpec(sf *SpecFunc, pc *PkgContracts, e *ast.CallExpr, env 
 			f.spec = &specCtx{bound: []map[string]Val{bound}, pcs: pc, nolocals: true, pkg: f.specPkgOf(pc)}
 			empty := &Env{vars: map[types.Object]Val{}, names: map[string]Val{}, heap: map[string]string{}, pc: "true"}
 			f.specBusy[fn] = true
+			f.noHeap++
 			body := f.specExpr(be, empty)
+			f.noHeap--
 			body = f.coerce(body, rt)
 			f.spec = saved
+			if sf.Opaque {
+				app := fn
+				if len(ps) > 0 {
+					var names []string
+					for _, p := range sf.Params {
+						names = append(names, p.Name+"!p")
+					}
+					app = fmt.Sprintf("(%s %s)", fn, strings.Join(names, " "))
+				}
+				f.S.decls = append(f.S.decls, fmt.Sprintf("(declare-fun %s (%s) %s)", fn, strings.Join(psorts, " "), f.S.SortOf(rt)))
+				if len(ps) > 0 {
+					f.S.decls = append(f.S.decls, fmt.Sprintf("(assert (forall (%s) (! (= %s %s) :pattern (%s))))", strings.Join(ps, " "), app, body.T, app))
+				} else {
+					f.S.decls = append(f.S.decls, fmt.Sprintf("(assert (= %s %s))", app, body.T))
+				}
+			} else {
 			f.S.decls = append(f.S.decls, fmt.Sprintf("(define-fun-rec %s (%s) %s %s)", fn, strings.Join(ps, " "), f.S.SortOf(rt), body.T))
+			}
 		}
 	}
 	var args []string
